@@ -126,6 +126,17 @@ CLAIMED["C09"] = dict(
     technique="TLC-enumerated abstract programs (round trip on the Serialize/Load specification) built through the real API and re-loaded",
     design="7/C09")
 
+CLAIMED["C07"] = dict(
+    text="The listener machine has a frame stack: an include line pushes a nested listener frame on the file resolved against the including file's "
+         "directory, its completion registers the program (and its own includes) by name, and a statement naming a registered program expands to its "
+         "operations. TLC explores 6 include layouts x call sequences over a 5-file tree and checks Load(main, fs) = Load(Inline(main)) (callee modes "
+         "in increasing order, parameters bound, every call a fresh copy), that the registry equals the transitive closure of includes, and that "
+         "ill-formed calls are refused. Each case is materialised in a scratch tree and loaded from 3 working directories (relative/absolute load "
+         "path) and the inlined text is loaded too; all compared with the specification.",
+    note="Trusted: TLC, renderer. Callee programs without measured registers; 5 files, nesting depth 2, up to 2 (thorough 3) items per main script.",
+    technique="TLC listener-machine model with include frames (include = inlining as a spec equality) + file-system replay under several working directories",
+    design="7/C07")
+
 NOT_YET = {}
 
 
